@@ -12,7 +12,7 @@ Z5  the wipe is real: volatile function pointer, volatile byte stores, and the
 """
 import os, re, subprocess
 from .. import cdb, ir, mem, report
-from ..ir import norm, root_var
+from ..ir import subterms, norm, root_var
 from ..dataflow import Solver, cond_atoms
 from ..mem import Intervals
 
@@ -227,6 +227,12 @@ def _z2_site(prog, rep, f, fr, var, is_param, n):
             return st
         if e.is_assign:
             t = e.kid(0)
+            # a store into the object of something read through another pointer parameter (the key handed in): key material
+            lt = norm(t)
+            if lt[0] != "v" and derives(t) and e.kid(1) is not None:
+                pp = set(p["id"] for p in f.params if (unit.types.get(p.get("ty")) or {}).get("kind") == "ptr" and (p["name"], p["id"]) != var)
+                if any(x[0] == "v" and len(x) > 2 and x[2] in pp for x in subterms(norm(e.kid(1)))):
+                    return ("dirty", None)
             if t.cls == "DeclRefExpr" and (t.decl["name"], t.decl["id"]) == var:
                 r = e.kid(1).strip()
                 if r is not None and r.cls == "CallExpr" and r.callee in ("malloc", "calloc", "crypto_aesctr_alloc"):
